@@ -7,7 +7,7 @@
     Statements only; every proof is [exact <lemma>]. *)
 From Coq Require Import List Arith Bool NArith Permutation.
 From WacV Require Import Str Graph Wiring WiringSpec EncodeModel ValidSpec GraphInv WiringDecode WiringSim WiringCorrect
-  ValidArgs ValidEncInv ValidComplete ValidFinal ValidWitness.
+  ValidArgs ValidEncInv ValidComplete ValidFinal ValidNoPanic ValidWitness.
 Import ListNotations.
 Local Open Scope nat_scope.
 
@@ -103,7 +103,9 @@ Print Assumptions enc_inv_reachable.
        of the graph's export map, all of which designate live nodes (no stale export name).
        MISSING: the type-level content of the output (TypeEncoder: type definitions, `use` aliases, dependency imports,
        component types, resources) and the validator's own rules — searched by ./check C01 against the reference
-       validator, not proved; and that the model encoder itself never reaches one of its bookkeeping panics. *)
+       validator, not proved; and that the model encoder never reaches one of its three INDEX-bookkeeping panics
+       (node index missing / set twice, encoded import missing), which needs the topological-order argument
+       (all other panics are excluded by [encoder_panics_classified] below). *)
 Theorem no_late_failure_partial : forall e u ops dc tau ord st names,
   UnivOK e u -> PkgIdent e u -> DefsSingle (run u ops) ->
   topo_orderb (run u ops) ord = true ->
@@ -118,6 +120,36 @@ Theorem no_late_failure_partial : forall e u ops dc tau ord st names,
     (forall nm n, In (nm, n) (exports (run u ops)) -> live (run u ops) n = true).
 Proof. exact no_late_failure_reachable. Qed.
 Print Assumptions no_late_failure_partial.
+
+(** 6. The model encoder's graph-consistency panics (instantiation without package, unexpected edge into an
+       instantiation, argument index that is no import, alias without source / of a non-instance / of a missing
+       export, definition without name, dead or import node in the emission order) are unreachable for graphs built
+       through the API: what remains are the three index-bookkeeping sites and [XBadNode] as the model's rendering of a
+       failed merge of an EXPLICIT import (a documented error, ImportTypeMergeConflict, in the current code). *)
+Theorem encoder_node_panics_classified : forall e u g dc tau st n s,
+  Inv u g -> GraphAlias.AliasInv u g -> KindInv u g -> ArgsChecked u g ->
+  live g n = true -> is_import g n = false ->
+  enc_node e u g dc tau st n = RErr (EPanic s) -> bookkeeping_site s = true.
+Proof. exact enc_node_panics_classified. Qed.
+Print Assumptions encoder_node_panics_classified.
+
+Theorem encoder_panics_classified : forall e u ops dc tau ord s,
+  (forall n, In n ord -> live (run u ops) n = true) ->
+  encode_with_order e u (run u ops) dc tau ord = RErr (EPanic s) ->
+  bookkeeping_site s = true \/
+  (s = XBadNode /\ exists a0 impl, resolve_implicit e u (run u ops) = ROk (a0, impl) /\
+     resolve_explicit e (run u ops) a0 (filter (is_import (run u ops)) ord) = RErr (EPanic XBadNode)).
+Proof. exact encode_panics_classified_reachable. Qed.
+Print Assumptions encoder_panics_classified.
+
+Theorem encoder_bad_node_is_import_merge : forall e u g dc tau ord,
+  Inv u g -> GraphAlias.AliasInv u g -> KindInv u g -> ArgsChecked u g ->
+  (forall n, In n ord -> live g n = true) ->
+  encode_with_order e u g dc tau ord = RErr (EPanic XBadNode) ->
+  exists a n nd nm, In n ord /\ get_node g n = Some nd /\ nk nd = NImport nm /\
+    agg_add a (nstr e nm) (we_sort e (nitem nd)) (we_iid e (nitem nd)) = AggKindMismatch.
+Proof. exact encode_bad_node_is_import_merge. Qed.
+Print Assumptions encoder_bad_node_is_import_merge.
 
 (** Non-vacuity: a concrete universe and history (incl. an instantiation that is removed again together with the
     argument it fed) satisfying every hypothesis of [no_late_failure_partial]; the model encoder succeeds in both
